@@ -400,8 +400,15 @@ func (m *mock) UploadReuploadCDNFile(ctx context.Context, r *tg.UploadReuploadCD
 func (m *mock) UploadGetCDNFileHashes(ctx context.Context, r *tg.UploadGetCDNFileHashesRequest) ([]tg.FileHash, error) {
 	return nil, fmt.Errorf("unexpected UploadGetCDNFileHashes")
 }
+// UploadGetWebFile serves the same file through the web-file schema (Downloader.Web): same reader,
+// same loops; the scripted faults and the request log are shared with UploadGetFile.
 func (m *mock) UploadGetWebFile(ctx context.Context, r *tg.UploadGetWebFileRequest) (*tg.UploadWebFile, error) {
-	return nil, fmt.Errorf("unexpected UploadGetWebFile")
+	res, err := m.UploadGetFile(ctx, &tg.UploadGetFileRequest{Offset: int64(r.Offset), Limit: r.Limit, Precise: true})
+	if err != nil {
+		return nil, err
+	}
+	f := res.(*tg.UploadFile)
+	return &tg.UploadWebFile{FileType: f.Type, Bytes: f.Bytes, Size: int(m.g.size), MimeType: "video/mp4"}, nil
 }
 
 // ---------------------------------------------------------------- sinks
@@ -440,6 +447,7 @@ type dcase struct {
 	seed     uint64
 	rng      *hc.RNG
 	bytes    bool
+	web      bool // Downloader.Web (streamed only: the scheduling hook identifies master-schema clients)
 	class    string
 	floodCnt int
 }
@@ -489,6 +497,9 @@ func runCase(d *dcase) (res dresult) {
 	}()
 	dl := downloader.NewDownloader().WithPartSize(d.ps)
 	b := dl.Download(m, &tg.InputDocumentFileLocation{ID: 1})
+	if d.web {
+		b = dl.Web(m, &tg.InputWebFileLocation{URL: "https://example.org/f", AccessHash: 1})
+	}
 	if d.threads == 0 {
 		res.sw = &seqWriter{}
 		res.typ, res.err = b.Stream(context.Background(), res.sw)
@@ -617,6 +628,9 @@ func run(c *hc.Ctx) error {
 			threads = r.Range(1, 8)
 		}
 		add("bytes", size, ps, threads, true)
+		if threads == 0 && r.Chance(25) {
+			cases[len(cases)-1].web = true
+		}
 	}
 	nBig := c.N(60, 300)
 	for i := 0; i < nBig; i++ {
@@ -692,6 +706,9 @@ func run(c *hc.Ctx) error {
 		}
 		c.Eval(fmt.Sprintf("%s ps=%d threads=%d script=%s size=%d seed=%d", mode, d.ps, d.threads, scriptString(d.script), d.size, d.seed), d.size > int64(d.ps))
 		c.Count(mode + "." + d.class)
+		if d.web {
+			c.Count("web-file-schema")
+		}
 		c.Count(fmt.Sprintf("threads=%d", d.threads))
 		switch {
 		case d.size == 0:
